@@ -46,6 +46,21 @@ Index(x, codec, ver) ==
 IndexRecordsLow(x)  == IndexRecs(x.roots, x.secs, FALSE)     \* a regenerated index without identity CIDs
 IndexRecordsHigh(x) == IndexRecs(x.roots, x.secs, TRUE)      \* ... and with them
 
+(* car detach-index list: one line "<multihash> <offset>" per record of a detached index. Only the multihash-sorted
+   codec can be iterated (the digest-only codec answers "not iterable"). The lines are, as a bag, the records of the
+   index; they come grouped by hash code and then by digest width, both ascending (inside a group the digest bytes
+   ascend: an I-layer fact, digests are symbolic here -- the harness holds the order to the reference decoder's). *)
+DetachListOk(codec) == codec = "mh"
+KeyLess(r, s) == r.hcode < s.hcode \/ (r.hcode = s.hcode /\ r.dlen < s.dlen)
+DetachList(x, storeIdent) == SortSeq(IndexRecs(x.roots, x.secs, storeIdent), KeyLess)
+GroupKeys(rs) == [i \in 1..Len(rs) |-> <<rs[i].hcode, rs[i].dlen>>]
+(* model-level sanity: listing is a permutation of the records and its keys never descend *)
+DetachListSound == stage = 1 => \A si \in BOOLEAN :
+   LET l == DetachList(a, si) r == IndexRecs(a.roots, a.secs, si) IN
+   /\ Len(l) = Len(r)
+   /\ \A i \in 1..Len(r) : Cardinality({ j \in 1..Len(l) : l[j] = r[i] }) = Cardinality({ j \in 1..Len(r) : r[j] = r[i] })
+   /\ \A i, j \in 1..Len(l) : i < j => ~KeyLess(l[j], l[i])
+
 (* car list *)
 List(x) == x.secs
 (* car get-block *)
@@ -80,6 +95,8 @@ Emit == stage = 1 => PrintT(ToJson([rec |-> "cli", a |-> a,
            reclow |-> [i \in 1..Len(IndexRecordsLow(a)) |-> <<IndexRecordsLow(a)[i].b, IndexRecordsLow(a)[i].off>>],
            rechigh |-> [i \in 1..Len(IndexRecordsHigh(a)) |-> <<IndexRecordsHigh(a)[i].b, IndexRecordsHigh(a)[i].off>>],
            list |-> List(a),
+           detok |-> [c \in {"mh", "sorted"} |-> DetachListOk(c)],
+           detkeyslow |-> GroupKeys(DetachList(a, FALSE)), detkeyshigh |-> GroupKeys(DetachList(a, TRUE)),
            getblock |-> [q \in SecIds |-> GetBlock(a, q)],
            append |-> { [s1 |-> {x}, s2 |-> {y}, out |-> FilterAppend(a, Filter(a, {x}, FALSE, 2), {y}, FALSE)] : x \in SecIds, y \in SecIds },
            concat2 |-> Concat(<<a, a>>), other |-> Other, concat_ao |-> Concat(<<a, Other>>), concat_oa |-> Concat(<<Other, a>>),
